@@ -217,8 +217,12 @@ def run_sweep(ck: common.Check, prop: str, tier: str):
                         flipped = dataclasses.replace(orig, has_sensor=not orig.has_sensor, temperature=None if orig.has_sensor else 21.0,
                                                       set_point=None if orig.set_point is not None else 22.5)
                     T.push_zone_status(rig, flipped)
-                    if (ci + z.zone_id) % 2 == 0:
+                    if (ci + z.zone_id) % 3 == 0:
                         T.push_zone_status(rig, orig)
+                    elif (ci + z.zone_id) % 3 == 1:
+                        # a sensor that reports no temperature at the moment (the zone still has a sensor)
+                        T.push_zone_status(rig, dataclasses.replace(orig, has_sensor=True, temperature=None,
+                                                                    set_point=(22 if gen == 4 else 22.0)))
                     dist[f"at{gen}_zone_report_history"] += 1
                 ac_calls, zone_calls = call_space(gen, rng, tier, temps if ci < 3 else temps[::7])
                 jobs = [("ac", ac, c, a) for c, a in ac_calls]
